@@ -17,7 +17,12 @@ Record rstep := {
   r_seq : Z;
   r_prm : params;
   r_probes : list (mode * via * Z * probe * pres);   (* calls made after the step (same block or later) *)
-  r_pre : list (mode * via * Z * probe * pres)       (* calls made in the same block BEFORE the step's transaction *)
+  r_pre : list (mode * via * Z * probe * pres);      (* calls made BEFORE the step took effect: in the same block ahead of
+                                                        the step's transaction, or in check / simulate / query mode
+                                                        between FinalizeBlock and Commit of the step's block *)
+  r_old : list (nat * (mode * via * Z * probe * pres)) (* calls made after the step but evaluated on an EARLIER version of
+                                                        the state (eth_call at an older height): (k, ..) = the state
+                                                        after k steps of the case (0 = the initial state) *)
 }.
 
 Record rcase := {
@@ -93,13 +98,23 @@ Definition step_model (c : rcase) (s : state) (k : skind) : state * res :=
   | SGenesis g => match init_genesis (caddr_of c) s g with Some s' => (s', ROk 0) | None => (s, RPanic) end
   end.
 
-Fixpoint first_bad (c : rcase) (s : state) (i : nat) (l : list rstep) : option nat :=
+(* answers on older versions: [Registry.answer_at], the function the theorem C17_node_traffic_erasable is about.
+   Between the steps the driver also makes requests the case does not mention at all (simulated deployments, the
+   historic calls themselves): the model has no term for them because they are erasable. *)
+Definition old_agree (c : rcase) (vers : list state) (l : list (nat * (mode * via * Z * probe * pres))) : bool :=
+  forallb (fun q => match q with (k, (md, v, a, p, o)) =>
+                      match answer_at (rc_hrp c) vers k md v a p with Some m => pres_eqb m o | None => false end end) l.
+
+(* [vers]: the states after 0, 1, .. steps, oldest first (the last one is [s]) *)
+Fixpoint first_bad (c : rcase) (vers : list state) (s : state) (i : nat) (l : list rstep) : option nat :=
   match l with
   | [] => None
   | x :: r =>
       let '(s', o) := step_model c s (r_kind x) in
+      let vers' := vers ++ [s'] in
       if res_eqb o (r_res x) && state_agrees s' x && probes_agree c s' x && probes_agree_on c s (r_pre x)
-      then first_bad c s' (S i) r
+         && old_agree c vers' (r_old x)
+      then first_bad c vers' s' (S i) r
       else Some i
   end.
 
@@ -107,6 +122,6 @@ Definition state_of (c : rcase) : state :=
   {| metas := rc_metas c; didx := rc_didx c; mseq := rc_seq c; prm := rc_prm c;
      supply := fun d => match lookup (rc_supply c) d with Some v => v | None => 0 end |}.
 
-Definition registry_first_bad (c : rcase) : option nat := first_bad c (state_of c) 0%nat (rc_steps c).
+Definition registry_first_bad (c : rcase) : option nat := first_bad c [state_of c] (state_of c) 0%nat (rc_steps c).
 Definition registry_ok (c : rcase) : bool := match registry_first_bad c with None => true | Some _ => false end.
 Definition registry_mismatches (off : nat) (l : list rcase) : list nat := mism registry_ok off l.
